@@ -424,10 +424,18 @@ def _src_label(src):
     return "real:%s:%s" % (src["real"]["header"], "".join(src["real"]["opts"]) or "-")
 
 
+def _ubsan_exit(r):
+    """non-recoverable UBSan reports end the process with exit status 1 (no signal)."""
+    return r.rc == 1 and "runtime error:" in r.err and not r.asan_report()
+
+
 def _crash_key(r):
     fr = r.frames(3)
     top = fr[0] if fr else "?"
     how = ("uncaught:" + r.uncaught()) if r.uncaught() else r.how()
+    if _ubsan_exit(r):
+        m = re.search(r"runtime error: ([A-Za-z -]+)", r.err)
+        how = "ubsan:" + "-".join((m.group(1).split() if m else ["?"])[:4])
     return "crash:%s@%s" % (how, top)
 
 
@@ -546,11 +554,11 @@ def _probe_lines(out):
     return res, (last if last is not None and last not in res else None)
 
 
-def _run_probes(d, lines, max_hangs=3):
+def _run_probes(d, lines, max_hangs=6, on_hang=None):
     """run probe/prefixes commands; when the process dies inside a probe, record it as DIED and carry on with the
     remaining ones in a new process.  lines: list of (label-list, command-line-builder(labels)).
-    After max_hangs watchdog kills the remaining probes are given up (recorded as SKIPPED): a hang costs seconds
-    and C12 does not judge it."""
+    A hang costs seconds and C12 does not judge it: after one, on_hang(label) names further labels to give up
+    (recorded as SKIPPED; hangs cluster inside one record), and after max_hangs all remaining ones are given up."""
     results = {}
     pending = list(lines)
     hangs = 0
@@ -579,6 +587,9 @@ def _run_probes(d, lines, max_hangs=3):
         hung = r.timed_out or r.sig == 14 or r.rc == -14
         hangs += 1 if hung else 0
         results[culprit] = ("HANG" if hung else "DIED", None)
+        if hung and on_hang is not None:
+            for l in on_hang(culprit):
+                results.setdefault(l, ("SKIPPED", None))
     return results
 
 
@@ -595,7 +606,7 @@ def _confirm_crash(ctx, case, res, d, data, label, what, ident=0):
     if r.timed_out:
         res.count("unconfirmed_hang")
         return
-    if r.died() or r.asan_report():
+    if r.died() or r.asan_report() or _ubsan_exit(r):
         res.violation(_crash_key(r), witness=what, prefix_len=len(data), got=r.err[-1500:])
     else:
         res.count("crash_not_reproduced")
@@ -622,7 +633,7 @@ def case_prefix(ctx, case, res):
         (["none"], lambda t: "probe none - 0 %d 1" % hi),
         (["full"], lambda t: "probe full %s 0 %d 1" % (hx(f), hi)),
         (lab, lambda t: "prefixes %s %s %d 1 %s" % (hx(f), hx(d), hi, " ".join(t))),
-    ])
+    ], on_hang=lambda label: _same_record(pdb, lengths, label))
     if pr["none"][0] != 0:
         raise core.HarnessError("baseline probe failed: %r" % (pr["none"],))
     h0 = pr["none"][1]
@@ -673,6 +684,16 @@ def case_prefix(ctx, case, res):
             res.violation("prefix-accepted-differs", prefix_len=L, witness=_src_label(case["src"]),
                           cut_in=_where(pdb, L))
     res.sample = {"source": case["src"], "file_bytes": len(x), "prefix_lengths": lengths[:12]}
+
+
+def _same_record(pdb, lengths, label):
+    """labels of the prefix lengths just after `label` within the same record: hangs come in runs (every cut
+    inside one field leaves the same garbage), so the next few bytes are given up rather than paid 4 s each."""
+    if not label.isdigit():
+        return []
+    L = int(label)
+    nxt = min((o for o in pdb.offsets if o > L), default=L)
+    return [str(x) for x in lengths if L < x < min(nxt, L + 16)]
 
 
 def _where(pdb, L):
@@ -845,7 +866,7 @@ def main(chk):
         add({"kind": "roundtrip", "src": s})
     # (c) prefixes
     b = core.build("asan")
-    budget = chk.pick(5000, 120000)
+    budget = chk.pick(5000, 60000)
     chunk = 250
     plan = []     # (src, mode)
     tiny = [s for s in syn if s["syn"]["params"].get("size") == "tiny" and not s["syn"]["params"].get("alt_names")]
